@@ -14,6 +14,7 @@ import (
 	"github.com/verily-src/fhirpath-go/fhirpath/verifharness/fx"
 	"github.com/verily-src/fhirpath-go/fhirpath/verifharness/gen"
 	"github.com/verily-src/fhirpath-go/fhirpath/verifharness/model"
+	"google.golang.org/protobuf/reflect/protoreflect"
 )
 
 // C05 — equality and ordering operators form one consistent partial order.
@@ -21,14 +22,14 @@ import (
 func init() {
 	core.Register(&core.Property{
 		ID:   "C05",
-		Rule: "value pool covering every System type, every Date/DateTime/Time precision x {no offset, Z, +05:30, -11:00}, numeric scale variants, quantities with equal/different/calendar units, each also carried as a FHIR primitive element where representable, plus complex elements; all ordered pairs x {=,!=,<,<=,>,>=} (operands as %env values through pre-compiled expressions, and as literal source text for a seeded sample); compared with the comparison model where the statement defines the answer, and with the relational laws (symmetry, negation, converse, trichotomy, transitivity of < within each kind) on every pair; collections of length 0..4 differing at each position, primitive and complex. distinct_nontrivial = distinct (left value, right value) pairs on which the model gives an absolute answer and the operands are not identical sources",
+		Rule: "value pool covering every System type, every Date/DateTime/Time precision x {no offset, Z, +05:30, -11:00}, numeric scale variants, quantities with equal/different/calendar units, each also carried as a FHIR primitive element where representable, plus complex elements, plus every value of every value-set bound code element (4751 values; compared with their FHIR code strings in one process, both orders); all ordered pairs x {=,!=,<,<=,>,>=} (operands as %env values through pre-compiled expressions, and as literal source text for a seeded sample); compared with the comparison model where the statement defines the answer, and with the relational laws (symmetry, negation, converse, trichotomy, transitivity of < within each kind) on every pair; collections of length 0..4 differing at each position, primitive and complex. distinct_nontrivial = distinct (left value, right value) pairs on which the model gives an absolute answer and the operands are not identical sources",
 		Assumptions: []string{"mixed kinds, Boolean ordering, offset vs no offset, number vs Quantity and singular/plural unit spellings are only subject to the laws (the statement does not define them)",
 			"a partial-precision DateTime cannot be shifted by an offset: pairs with different offsets are decided only at second precision or finer"},
 		Run:    runC05,
-		Checks: map[string]func(*core.Env, []json.RawMessage){"pair": replayC05Pair, "coll": replayC05Coll},
+		Checks: map[string]func(*core.Env, []json.RawMessage){"pair": replayC05Pair, "coll": replayC05Coll, "codes": replayC05Codes},
 		Threshold: func(m *core.Merged) []string {
 			var r []string
-			for _, k := range []string{"model-decided", "law-only", "kind:Integer", "kind:Decimal", "kind:String", "kind:Date", "kind:DateTime", "kind:Time", "kind:Quantity", "kind:Boolean", "kind:Complex", "carrier:fhir", "literal-path", "transitivity", "collection", "collection-complex", "precision-mismatch-empty", "offset-normalised"} {
+			for _, k := range []string{"model-decided", "law-only", "kind:Integer", "kind:Decimal", "kind:String", "kind:Date", "kind:DateTime", "kind:Time", "kind:Quantity", "kind:Boolean", "kind:Complex", "carrier:fhir", "literal-path", "transitivity", "collection", "collection-complex", "precision-mismatch-empty", "offset-normalised", "code-element"} {
 				if m.Cover[k] == 0 {
 					r = append(r, "never observed: "+k)
 				}
@@ -223,6 +224,68 @@ func decScale(r interface{ FloatString(int) string }) int {
 	return 400
 }
 
+// c05Codes: bound code elements (every value of every value-set bound code message reachable from the resource
+// types) compare as the strings of their FHIR codes, all in one process and in two orders.
+func c05Codes(env *core.Env, reverse bool) {
+	defer env.In("codes", reverse)()
+	ws := codeWrappers()
+	if reverse {
+		for i, j := 0, len(ws)-1; i < j; i, j = i+1, j-1 {
+			ws[i], ws[j] = ws[j], ws[i]
+		}
+	}
+	type probe struct {
+		src  string
+		want string
+		ex   *fhirpath.Expression
+	}
+	probes := []*probe{{src: "%x = %c", want: "true"}, {src: "%c = %x", want: "true"}, {src: "%x != %c", want: "false"}, {src: "%x = %o", want: "false"}, {src: "%o != %x", want: "true"},
+		{src: "%x < %c", want: "false"}, {src: "%x <= %c", want: "true"}, {src: "%x >= %c", want: "true"}, {src: "%x = %y", want: "true"}, {src: "%x != %y", want: "false"}}
+	for _, p := range probes {
+		p.ex, _ = fx.Compile(env, p.src)
+		if p.ex == nil {
+			env.Skip("code-probe-does-not-compile")
+			return
+		}
+	}
+	for _, md := range ws {
+		vf := md.Fields().ByName("value")
+		vals := vf.Enum().Values()
+		for i := 0; i < vals.Len(); i++ {
+			ev := vals.Get(i)
+			if ev.Number() == 0 {
+				continue
+			}
+			code := gen.OriginalCode(ev)
+			other := "not-" + code
+			m := gen.NewMessage(md)
+			m.Set(vf, protoreflect.ValueOfEnum(ev.Number()))
+			m2 := gen.NewMessage(md)
+			m2.Set(vf, protoreflect.ValueOfEnum(ev.Number()))
+			eo := []fhirpath.EvaluateOption{evalopts.EnvVariable("x", m.Interface()), evalopts.EnvVariable("y", m2.Interface()), evalopts.EnvVariable("c", system.String(code)), evalopts.EnvVariable("o", system.String(other))}
+			env.Case()
+			env.Cover("code-element")
+			for _, p := range probes {
+				r := fx.Evaluate(env, p.ex, nil, eo...)
+				if r.IsPanic() {
+					env.Violatef(fx.PanicSig("C05", r), "`%s` with %%x = %s value %s => %s", p.src, md.FullName(), ev.Name(), r.Short())
+					break
+				}
+				if r.Bool3() != p.want {
+					env.Violatef("C05/code-element/"+strings.ReplaceAll(strings.ReplaceAll(p.src, "%", ""), " ", "")+"/want-"+p.want, "`%s` with %%x = %%y = %s value %s (FHIR code %q), %%c = '%s', %%o = '%s': expected %s, observed %s", p.src, md.FullName(), ev.Name(), code, code, other, p.want, trunc(r.Short(), 80))
+					break
+				}
+			}
+		}
+	}
+}
+
+func replayC05Codes(env *core.Env, a []json.RawMessage) {
+	var rev bool
+	json.Unmarshal(a[0], &rev)
+	c05Codes(env, rev)
+}
+
 type c05Pool struct {
 	vals    []c05Val
 	runtime []any // runtime value of each pool entry (system value or element)
@@ -409,6 +472,11 @@ func replayC05Pair(env *core.Env, a []json.RawMessage) {
 }
 
 func runC05(env *core.Env) {
+	for k, rev := range []bool{false, true} {
+		if env.Mine(k + 3) {
+			c05Codes(env, rev)
+		}
+	}
 	p := c05Build0(env)
 	n := len(p.vals)
 	if env.Shard == 0 {
